@@ -28,6 +28,22 @@ use crate::Cfg;
 
 type Fields = Vec<(Vec<u8>, Vec<u8>)>;
 
+/// second build configuration: with `--features chrono` a `Timestamp` also carries a parsed
+/// `DateTime` and an unparsable `Last-Modified` is an error. chrono's parser is outside the model:
+/// the playlist kind is then called `playlistsc` and only totality and `raw()` are compared.
+#[cfg(feature = "chrono")]
+pub const CHRONO: bool = true;
+#[cfg(not(feature = "chrono"))]
+pub const CHRONO: bool = false;
+
+fn pl_kind() -> &'static str {
+    if CHRONO {
+        "playlistsc"
+    } else {
+        "playlists"
+    }
+}
+
 pub const KINDS: &[&str] = &[
     "status", "stats", "rg", "count", "countg", "list", "listg", "playlists", "stget", "stlist", "stfind",
     "messages", "channels", "tagtypes", "update", "addid", "unit", "art",
@@ -342,6 +358,7 @@ fn same(a: String, b: String) -> String {
 
 /// run the real decoder of `kind` on `frame` and walk the result
 fn decode(kind: &str, params: &str, frame: Frame) -> String {
+    let kind = if kind == "playlistsc" { "playlists" } else { kind };
     match kind {
         "status" => outcome(cmds::Status.response(frame), |s| fmt_status(&s)),
         "stats" => outcome(cmds::Stats.response(frame), |s| fmt_stats(&s)),
@@ -384,6 +401,16 @@ fn decode(kind: &str, params: &str, frame: Frame) -> String {
             }
         }
         "playlists" => outcome(cmds::GetPlaylists.response(frame), |l| {
+            for p in &l {
+                // every accessor / comparison of Timestamp
+                let t = &p.last_modified;
+                let _ = (t == t, t.cmp(t), t.partial_cmp(t), t.clone(), format!("{t:?}"));
+                #[cfg(feature = "chrono")]
+                {
+                    let c = t.chrono_datetime();
+                    let _ = (*t == c, t.partial_cmp(&c));
+                }
+            }
             seq(l.iter().map(|p| format!("{}/{}", hs(&p.name), hs(p.last_modified.raw()))).collect())
         }),
         "stget" => outcome(cmds::StickerGet::new("u", "n").response(frame), |s| {
@@ -578,6 +605,7 @@ fn line(k: &str, v: impl AsRef<[u8]>) -> (Vec<u8>, Vec<u8>) {
 /// lines MPD prints for the abstract reply, in MPD's order; `true` if the order is not fixed by
 /// the protocol (distinct keys)
 fn encode_record(kind: &str, params: &str, record: &str) -> Option<(Fields, bool)> {
+    let kind = if kind == "playlistsc" { "playlists" } else { kind };
     let mut out: Fields = Vec::new();
     match kind {
         "status" => {
@@ -1035,7 +1063,29 @@ fn gen_rec(r: &mut Rng, kind: &str, specs: &[String]) -> String {
             let ts = distinct_tags(r, specs, n + 1);
             format!("typed.listg.rec {} {} 0", ts.join("/"), gen_list_rows(r, n))
         }
-        "playlists" => format!("typed.playlists.rec _ {} 0", gen_pairs(r, false, false)),
+        "playlists" => {
+            // MPD prints Last-Modified as ISO 8601 UTC; without chrono any text is carried verbatim
+            let n = r.below(6);
+            let rows: Vec<String> = (0..n)
+                .map(|_| {
+                    let ts = if !CHRONO && r.chance(1, 4) {
+                        small_value(r)
+                    } else {
+                        format!(
+                            "{:04}-{:02}-{:02}T{:02}:{:02}:{:02}Z",
+                            r.range(1970, 2100),
+                            r.range(1, 12),
+                            r.range(1, 28),
+                            r.below(24),
+                            r.below(60),
+                            r.below(60)
+                        )
+                    };
+                    format!("{}/{}", hx(&small_value(r)), hx(&ts))
+                })
+                .collect();
+            format!("typed.playlists.rec _ {} 0", if rows.is_empty() { "_".into() } else { rows.join("|") })
+        }
         "messages" => format!("typed.messages.rec _ {} 0", gen_pairs(r, false, false)),
         "stget" => {
             let name = small_value(r).replace('=', "_");
@@ -1306,5 +1356,13 @@ pub fn gen(cfg: &Cfg) -> Vec<String> {
 
     // (d) typed command lists -------------------------------------------------------------------
     gen_cmdlists(&mut r, &mut ops, 150 * scale);
+    if CHRONO {
+        // chrono build: the playlist kind is compared for totality and raw() only
+        for op in ops.iter_mut() {
+            if op.starts_with("typed.playlists ") || op.starts_with("typed.playlists.rec ") {
+                *op = op.replacen("typed.playlists", "typed.playlistsc", 1);
+            }
+        }
+    }
     ops
 }
